@@ -22,6 +22,11 @@ pub enum Flush {
     Low,
 }
 
+thread_local! {
+    // recycled mappings (base, map_len, body_len): avoids 5 syscalls per buffer in the hot loops
+    static POOL: std::cell::RefCell<Vec<(usize, usize, usize)>> = std::cell::RefCell::new(Vec::new());
+}
+
 pub struct Guarded<T: Copy> {
     base: *mut u8,
     map_len: usize,
@@ -40,12 +45,26 @@ impl<T: Copy> Guarded<T> {
         let body_len = body_pages.max(1) * PAGE;
         let map_len = body_len + 2 * PAGE;
         unsafe {
-            let base = mmap(std::ptr::null_mut(), map_len, PROT_READ | PROT_WRITE, MAP_PRIVATE | MAP_ANONYMOUS, -1, 0);
-            assert!(base as isize != -1, "mmap failed");
-            let base = base as *mut u8;
-            assert_eq!(mprotect(base as *mut c_void, PAGE, PROT_NONE), 0);
-            assert_eq!(mprotect(base.add(PAGE + body_len) as *mut c_void, PAGE, PROT_NONE), 0);
+            let recycled = POOL.with(|p| {
+                let mut p = p.borrow_mut();
+                p.iter().position(|e| e.2 == body_len).map(|i| p.swap_remove(i))
+            });
+            let base = match recycled {
+                Some((b, _, _)) => b as *mut u8,
+                None => {
+                    let base = mmap(std::ptr::null_mut(), map_len, PROT_READ | PROT_WRITE, MAP_PRIVATE | MAP_ANONYMOUS, -1, 0);
+                    assert!(base as isize != -1, "mmap failed");
+                    let base = base as *mut u8;
+                    assert_eq!(mprotect(base as *mut c_void, PAGE, PROT_NONE), 0);
+                    assert_eq!(mprotect(base.add(PAGE + body_len) as *mut c_void, PAGE, PROT_NONE), 0);
+                    base
+                }
+            };
             let body = base.add(PAGE);
+            if recycled.is_some() {
+                // same guarantee as a fresh mapping: the slice starts out zeroed
+                std::ptr::write_bytes(match flush { Flush::High => body.add(body_len - bytes), Flush::Low => body }, 0, bytes);
+            }
             let start = match flush {
                 Flush::High => body.add(body_len - bytes),
                 Flush::Low => body,
@@ -83,9 +102,55 @@ impl<T: Copy> Guarded<T> {
 impl<T: Copy> Drop for Guarded<T> {
     fn drop(&mut self) {
         if self.map_len > 0 {
-            unsafe {
-                munmap(self.base as *mut c_void, self.map_len);
+            let keep = self.body_len <= 64 * PAGE
+                && POOL.with(|p| {
+                    let mut p = p.borrow_mut();
+                    if p.len() < 48 {
+                        p.push((self.base as usize, self.map_len, self.body_len));
+                        true
+                    } else {
+                        false
+                    }
+                });
+            if !keep {
+                unsafe {
+                    munmap(self.base as *mut c_void, self.map_len);
+                }
             }
+        }
+    }
+}
+
+extern "C" {
+    fn open(path: *const std::ffi::c_char, flags: i32, mode: u32) -> i32;
+    fn ftruncate(fd: i32, len: i64) -> i32;
+    fn close(fd: i32) -> i32;
+}
+/// Map `len` bytes of a (created/truncated) file MAP_SHARED; null on failure.
+pub fn shared_file_map(path: &std::path::Path, len: usize) -> *mut u8 {
+    const O_RDWR: i32 = 2;
+    const O_CREAT: i32 = 0o100;
+    const O_TRUNC: i32 = 0o1000;
+    const MAP_SHARED: i32 = 1;
+    let c = match std::ffi::CString::new(path.to_string_lossy().as_bytes()) {
+        Ok(c) => c,
+        Err(_) => return std::ptr::null_mut(),
+    };
+    unsafe {
+        let fd = open(c.as_ptr(), O_RDWR | O_CREAT | O_TRUNC, 0o644);
+        if fd < 0 {
+            return std::ptr::null_mut();
+        }
+        if ftruncate(fd, len as i64) != 0 {
+            close(fd);
+            return std::ptr::null_mut();
+        }
+        let p = mmap(std::ptr::null_mut(), len, PROT_READ | PROT_WRITE, MAP_SHARED, fd, 0);
+        close(fd);
+        if p as isize == -1 {
+            std::ptr::null_mut()
+        } else {
+            p as *mut u8
         }
     }
 }
